@@ -52,6 +52,9 @@ type observation struct {
 type panicVal struct {
 	Node int
 	Seq  int
+	Run  int
+	// ExecNo is the ordinal of the execution of Node that panicked.
+	ExecNo int
 }
 
 // gworld is the simulated environment of one incremental-executor case.
@@ -73,10 +76,13 @@ type gworld struct {
 	nextRun    int
 	activeRuns int
 	probeLocks bool
+	runActive  map[int]bool
+
+	concurrentPanicPossible bool
 }
 
 func newWorld(prop string, g GraphSpec, par int) *gworld {
-	w := &gworld{g: g, prop: prop, probeLocks: true}
+	w := &gworld{g: g, prop: prop, probeLocks: true, runActive: map[int]bool{}}
 	w.exec = incremental.New(incremental.WithParallelism(int64(par)))
 	w.input = make([]int64, g.N)
 	w.panicsLeft = make([]int, g.N)
@@ -133,7 +139,9 @@ func (q gquery) Execute(t *incremental.Task) (int64, error) {
 		w.fail(viol(w.prop+"/executed-twice", "query %d executed (run %d) although it is already %s since its last eviction", q.id, run,
 			map[bool]string{true: "executing", false: "memoised"}[w.executing[q.id]]))
 	}
-	if w.probeLocks {
+	if w.probeLocks && w.runActive[run] {
+		// (A straggler of a cancelled Run may still execute after that Run has
+		// returned and dropped its shared lock; only live runs are probed.)
 		if canLock, _ := w.exec.VerifDirtyState(); canLock {
 			w.fail(viol(w.prop+"/run-without-shared-lock", "query %d executes while the executor's eviction lock could be taken exclusively", q.id))
 		}
@@ -176,7 +184,7 @@ func (q gquery) Execute(t *incremental.Task) (int64, error) {
 	if w.panicsLeft[q.id] > 0 {
 		w.panicsLeft[q.id]--
 		w.panicSeq++
-		pv := &panicVal{Node: q.id, Seq: w.panicSeq}
+		pv := &panicVal{Node: q.id, Seq: w.panicSeq, Run: run, ExecNo: w.execCount[q.id]}
 		w.thrown = append(w.thrown, pv)
 		sim.S().Fault("query-panic")
 		panic(pv)
@@ -202,8 +210,10 @@ func (w *gworld) doRun(ctx context.Context, roots []int) (rr runResult) {
 	rr.tag = w.nextRun
 	rr.roots = roots
 	w.activeRuns++
+	w.runActive[rr.tag] = true
 	defer func() {
 		w.activeRuns--
+		w.runActive[rr.tag] = false
 		if p := recover(); p != nil {
 			rr.panicked = p
 			rr.returned = true
